@@ -79,7 +79,13 @@ def parseInput (s : String) : List Bytes × Option (List Bytes) × Wire.RErr :=
     let items := if segs == "" || segs == "-" then [] else segs.splitOn ","
     -- `TO`: the read deadline expires at this point of the stream.  An error of the connection is final (the limiter below bufio
     -- keeps it): for the server the stream ends there with a timeout, whatever the peer sends afterwards
-    let items0 := items
+    -- `HSFAIL,<garbage>`: what the peer sends instead of a ClientHello; the TLS layer consumes it, the command reader never sees it
+    let rec dropHsFail : List String → List String
+      | "HSFAIL" :: _ :: rest => dropHsFail rest
+      | "HSFAIL" :: [] => []
+      | x :: rest => x :: dropHsFail rest
+      | [] => []
+    let items0 := dropHsFail items
     let items := items0.takeWhile (· != "TO")
     let plain := items.takeWhile (· != "TLS")
     let tls := (items.dropWhile (· != "TLS")).drop 1
@@ -249,10 +255,11 @@ def monitor (pid : String) (c0 a : List String) : String :=
     let bad : List String :=
       (if junk.isEmpty then [] else ["unexpected observation: " ++ String.intercalate "," (junk.take 3)]) ++
       (match pid with
-       | "C03" => Spec.Mon.check3 cfg evs
+       | "C03" => Spec.Mon.check3 cfg evs ++ Spec.AuthMon.checkGreetFlavour cfg.lmtp input evs
        | "C04" => Spec.Mon.check4 cfg.lmtp drecs evs
        | "C08" => Spec.Mon.check8 evs
-       | "C09" => Spec.Mon.check9 cfg evs ++ Spec.AuthMon.check input evs
+       | "C09" => Spec.Mon.check9 cfg evs ++ Spec.AuthMon.check input evs ++
+           (Spec.Mon.check10 cfg (tlsMode == "implicit") evs).filter (fun r => "C09".isPrefixOf r)
        | "C10" => Spec.Mon.check10 cfg (tlsMode == "implicit") evs
        | "C11" =>
          -- `XP=…`: the generator built the MAIL (to `s@x`) / RCPT (to `r@x`) line from known option values: the backend sees exactly
